@@ -721,6 +721,34 @@ def gen_case(rng):
         return {"prop": "C12", "stream": "M3", "threads": threads, "cold": rng.random() < 0.5, "sched_seed": rng.getrandbits(48),
                 "p_hot": rng.choice([0.5, 0.2]), "p_cold": rng.choice([0.001, 0.005]), "opcodes": False, "p_sleep": 0.0,
                 "p_rare": rng.choice([0.0, 0.1]), "lib": True, "weights": weights}
+    if rng.random() < 0.1:
+        # the SAME kind of operation with DIFFERENT arguments in every thread, several times: whatever remembers "the last
+        # one used" (an encoder, a label, a factory, an option set) is fought over
+        kind = rng.choice(["serialize", "serialize", "serialize", "parse_bytes", "builder", "pipeline"])
+        encs = ["utf-8", "ascii", "iso-8859-1", "koi8-r", "shift_jis", "utf-16le", "windows-1252", "euc-kr", "iso-8859-2"]
+        rng.shuffle(encs)
+        texts = ["caf\xe9", "\u20ac5", "\u0416\u0438", "\u4e2d\u6587", "<p title='\xfc'>", "\U0001f600", "na\xefve \u2014 x"]
+        for t in range(n_threads):
+            ops = []
+            for _ in range(rng.randint(3, 6)):
+                if kind == "serialize":
+                    ops.append({"op": "api_serialize", "doc": list(rng.choice(c12.SER_DOCS)) + [rng.choice(texts)], "builder": rng.choice(["etree", "dom"]),
+                                "opts": dict(rng.choice(c12.SER_OPTS)), "encoding": encs[t]})
+                elif kind == "parse_bytes":
+                    hexdoc, args = c12.BYTE_DOCS[(t * 3 + len(ops)) % len(c12.BYTE_DOCS)]
+                    ops.append({"op": "api_parse_bytes", "hex": hexdoc.hex(), "args": dict(args), "builder": rng.choice(["etree", "dom"])})
+                elif kind == "builder":
+                    b = ["etree", "etree_full", "dom"][t % 3]
+                    ops.append(rng.choice([{"op": "get_builder", "builder": b},
+                                           {"op": "api_parse", "doc": list(rng.choice(SHARED_DOCS)), "builder": b, "ns": t % 2 == 0}]))
+                else:
+                    ops.append({"op": "pipeline", "doc": list(rng.choice(c12.SER_DOCS)) + [rng.choice(texts)], "builder": rng.choice(["etree", "dom"]),
+                                "filters": rng.sample(c12.PIPE_FILTERS, rng.randint(1, 3)), "sink": rng.choice(c12.PIPE_SINKS)})
+            threads.append({"ops": ops})
+        return {"prop": "C12", "stream": "M3", "threads": threads, "cold": rng.random() < 0.6, "sched_seed": rng.getrandbits(48),
+                "p_hot": rng.choice([0.5, 0.5, 0.2]), "p_cold": rng.choice([0.005, 0.001, 0.02]), "opcodes": rng.random() < 0.7,
+                "opcodes_all": rng.random() < 0.1, "p_sleep": rng.choice([0.0, 0.0, 0.4]), "p_rare": rng.choice([0.0, 0.1]),
+                "lib": rng.random() < 0.2}
     if rng.random() < 0.08:
         # every thread works on a document that runs into one of the interpreter's limits
         for _ in range(n_threads):
